@@ -421,7 +421,8 @@ func execNss(a []string) vlib.Res {
 		}
 	}
 	ctx, _ := middleware.EnsureResolutionAttemptGuard(context.Background())
-	n, err := resolver.VerifC13LookupV4Nss(nssPipe.Resolver, q, ctx, fmt.Sprintf("z%d.nss-c13.example.", seq), hosts, 0xc13000000+seq)
+	key := 0xc13000000 + seq
+	n, err := resolver.VerifC13LookupV4Nss(nssPipe.Resolver, q, ctx, fmt.Sprintf("z%d.nss-c13.example.", seq), hosts, key)
 	impl := "noservers"
 	switch {
 	case err != nil:
@@ -429,8 +430,15 @@ func execNss(a []string) vlib.Res {
 	case n > 0:
 		impl = "servers"
 	}
+	// the provisional delegation lookupV4Nss publishes while it is still collecting
+	_, derr := resolver.VerifDelegations(nssPipe.Resolver).Get(key)
+	left := derr == nil
+	impl += " prov=" + vlib.B(left)
 	or := "ok"
-	if impl == "noservers" && anyLocal {
+	if left && err != nil {
+		or = "FAIL sig=nss/aborted-collection-left-a-truncated-provisional-delegation outcomes=" + a[0]
+	}
+	if strings.HasPrefix(impl, "noservers") && anyLocal {
 		or = "FAIL sig=nss/request-local-sub-lookup-failure-counted-as-unreachable-zone outcomes=" + a[0]
 	}
 	return vlib.Res{Impl: impl, Oracle: or, Tags: "nt"}
